@@ -44,11 +44,12 @@ def _unify_chance(t, tab=None):
 def json_case(cid, rng, t, st):
     t = _unify_chance(t)
     ts = cli.sort_tree(t)
-    text = json.dumps(cli.tree_to_json(t))
+    asc = rng.random() < 0.5      # non-ASCII names either as \u escapes or as raw UTF-8
+    text = json.dumps(cli.tree_to_json(t), ensure_ascii=asc)
     # the same document as other byte sequences: pretty-printed, with leading / trailing white space
     c = rng.random()
     if c < 0.2:
-        text = json.dumps(cli.tree_to_json(t), indent=rng.choice([1, 2, 4]))
+        text = json.dumps(cli.tree_to_json(t), indent=rng.choice([1, 2, 4]), ensure_ascii=asc)
     if c < 0.1 or 0.2 <= c < 0.35:
         text = rng.choice(["\n", "  ", "\t\n ", "\r\n"]) + text + rng.choice(["", "\n", " \n"])
     multi, singles = infosets_of(ts)
@@ -110,9 +111,14 @@ def gen_file_case(cid, rng, fmt=None, **kw):
     fmt = fmt or rng.choice(["json", "gambit"])
     t, st = gen_tree(rng, max_nodes=rng.choice([6, 15, 30, 50]), max_depth=rng.choice([3, 4, 6]), label_space=rng.choice([30, 1000]),
                      p_share=rng.choice([0.5, 0.8]), single_rate=rng.choice([0.1, 0.2]), max_actions=rng.choice([2, 3]))
-    if fmt == "json":
-        return json_case(cid, rng, t, st)
-    return gambit_case(cid, rng, t, st, **kw)
+    # a third of the files use awkward names (spaces, quotes, backslashes, both cases, non-ASCII): same order, same game
+    cli.FANCY = cli.ALPHABET if rng.random() < 0.33 else None
+    try:
+        if fmt == "json":
+            return json_case(cid, rng, t, st)
+        return gambit_case(cid, rng, t, st, **kw)
+    finally:
+        cli.FANCY = None
 
 
 # ---------------------------------------------------------------- options
@@ -127,9 +133,28 @@ def random_options(rng, full=None):
 
 
 def option_args(o, explicit_defaults=True):
-    a = ["-m", o["method"], "-d", PRESET_OPT[o["preset"]], "-t", str(o["T"]), "-r", repr(o["r"]), "-p", str(o["par"]),
-         "-c", repr(o["clip"])]
+    a = []
+    for flag, val in (("-m", o["method"]), ("-d", PRESET_OPT[o["preset"]]), ("-t", str(o["T"])), ("-r", repr(o["r"])),
+                      ("-p", str(o["par"])), ("-c", repr(o["clip"]))):
+        if flag not in o.get("omit", ()):
+            a += [flag, val]
     return a
+
+
+DEFAULTS = {"-d": ("preset", "dcfr"), "-t": ("T", 1000), "-r": ("r", 0.0), "-c": ("clip", 0.0), "-m": ("method", "external"),
+            "-p": ("par", 0)}
+
+
+def omit_some(rng, o, rate=0.2, flags=("-d", "-t", "-r", "-c")):
+    """leave some options off the command line: the documented default must then be what runs (the expectations are
+    computed from the option record, into which the default is written here)"""
+    o["omit"] = set()
+    for flag in flags:
+        if rng.random() < rate:
+            key, dflt = DEFAULTS[flag]
+            o[key] = dflt
+            o["omit"].add(flag)
+    return o
 
 
 # ---------------------------------------------------------------- what the library / model say
